@@ -360,3 +360,39 @@ func BaseFormCorpus(dir string) []CorpusEntry {
 	out = append(out, CorpusEntry{Name: name, Spec: writeSpec(filepath.Join(dir, name), "openapi", routeSpec("servers: [{url: /v1}]\n", set)), SpecHandlerName: "api.json", Group: "base-forms"})
 	return out
 }
+
+// ParamCorpus: typed path / query / header parameters, declared at path-item
+// and operation level, in an order different from the template order.
+func ParamCorpus(dir string) []CorpusEntry {
+	p := func(in, name, typ, format string, required bool) string {
+		f := ""
+		if format != "" {
+			f = ", format: " + format
+		}
+		r := ""
+		if required || in == "path" {
+			r = ", required: true"
+		}
+		return fmt.Sprintf("{in: %s, name: %q%s, schema: {type: %s%s}}", in, name, r, typ, f)
+	}
+	arr := func(in, name, typ, format string) string {
+		f := ""
+		if format != "" {
+			f = ", format: " + format
+		}
+		return fmt.Sprintf("{in: %s, name: %q, schema: {type: array, items: {type: %s%s}}}", in, name, typ, f)
+	}
+	spec1 := specHead + "servers: [{url: /api/v1}]\npaths:\n" +
+		"  /orgs/{org}/teams/{team}:\n    get: {parameters: [" + p("path", "team", "integer", "int64", true) + ", " + p("path", "org", "string", "", true) + "], responses: {default: {description: d}}}\n" +
+		"  /shops/{shop}/pets/{pet_id}:\n    parameters: [" + p("path", "pet_id", "integer", "int32", true) + "]\n    get: {parameters: [" + p("path", "shop", "string", "", true) + ", " + p("query", "limit", "integer", "", false) + "], responses: {default: {description: d}}}\n" +
+		"    delete: {parameters: [" + p("path", "shop", "string", "", true) + "], responses: {default: {description: d}}}\n" +
+		"  /a/{flag}/b/{when}/c/{ratio}:\n    get: {parameters: [" + p("path", "ratio", "number", "double", true) + ", " + p("path", "flag", "boolean", "", true) + ", " + p("path", "when", "string", "date-time", true) + "], responses: {default: {description: d}}}\n"
+	spec2 := specHead + "paths:\n" +
+		"  /q:\n    parameters: [" + p("query", "page", "integer", "int32", false) + ", " + p("header", "X-Trace", "string", "", false) + "]\n" +
+		"    get: {parameters: [" + p("query", "page", "integer", "int64", true) + ", " + p("query", "f32", "number", "float", false) + ", " + p("query", "f64", "number", "", true) + ", " + p("query", "ok", "boolean", "", false) + ", " + p("query", "at", "string", "date-time", false) + ", " + arr("query", "ids", "integer", "int64") + ", " + arr("query", "ratios", "number", "float") + ", " + arr("query", "names", "string", "") + ", " + p("header", "X-Count", "integer", "", true) + ", " + p("header", "X-Ratio", "number", "float", false) + ", " + p("header", "X-When", "string", "date-time", false) + "], responses: {default: {description: d}}}\n" +
+		"    post: {responses: {default: {description: d}}}\n"
+	return []CorpusEntry{
+		{Name: "param-pathorder", Spec: writeSpec(filepath.Join(dir, "param-pathorder"), "openapi", spec1), Group: "param-matrix"},
+		{Name: "param-types", Spec: writeSpec(filepath.Join(dir, "param-types"), "openapi", spec2), Group: "param-matrix"},
+	}
+}
